@@ -36,34 +36,44 @@ def both_ways(ctx):
     last = canon(strip(fill['rhs'])['e'])
     ups = [e for e in f.events() if is_call(e, 'pull_up')]
     downs = [e for e in f.events() if is_call(e, 'push_down')]
-    # the p != m edge
-    done = False
-    for b, blk in f.blocks.items():
-        if blk.term and blk.term.get('cond') is not None and len(blk.succ) == 2:
-            for si in (0, 1):
-                for (op, lc, rc, l, r) in norm_cond(blk.term['cond'], si == 0):
-                    if op == '!=' and {lc, rc} == {slot, last}:
-                        done = True
-                        mp = must_pass_from_block(f, blk.succ[si], lambda e: (e in ups or e in downs) and canon(e['args'][2]) == slot)
-                        pts = [(pb, pi) for (pb, pi, _) in exits_of(f)] + [(f.exit, 0)]
-                        ok = all(mp.get(p, True) for p in pts)
-                        ctx.ob('R-C05a', 'unregister:refilled-slot-is-sifted', ok, loc=blk.term.get('loc'),
-                               detail='when the refilled slot differs from the last slot, every path to return sifts it', fn=f.q)
-                        reach = set()
-                        st = [blk.succ[si]]
-                        while st:
-                            x = st.pop()
-                            if x in reach or x is None:
-                                continue
-                            reach.add(x)
-                            st.extend(f.blocks[x].succ)
-                        ctx.ob('R-C05a', 'unregister:sift-up-present', any(e['_b'] in reach for e in ups), loc=fill['loc'],
-                               detail='the replacement may be earlier than its new parent: pull_up(%s) is applied' % slot, fn=f.q)
-                        ctx.ob('R-C05a', 'unregister:sift-down-present', any(e['_b'] in reach for e in downs), loc=fill['loc'],
-                               detail='the replacement may be later than its new children: push_down(%s) is applied' % slot, fn=f.q)
-    if not done:
-        ctx.ob('R-C05a', 'unregister:refilled-slot-is-sifted', False, loc=fill['loc'],
-               detail='no test distinguishing the refilled slot from the last slot found; sifting must follow the refill', fn=f.q)
+    # after the refill, every path to return sifts the slot, unless it is known to be the last slot itself
+    def tr(e, s_, fill=fill):
+        if e is fill:
+            return False
+        if s_ is None:
+            return None
+        if (e in ups or e in downs) and canon(e['args'][2]) == slot:
+            return True
+        return s_
+    def edge(blk, si, s_):
+        if s_ is False and blk.term and blk.term.get('cond') is not None and len(blk.succ) == 2:
+            for (op, lc, rc, l, r) in norm_cond(blk.term['cond'], si == 0):
+                if op == '==' and {lc, rc} == {slot, last}:
+                    return True
+        return s_
+    def jn(a_, b_):
+        if a_ is None:
+            return b_
+        if b_ is None:
+            return a_
+        return a_ and b_
+    _, ev_in = forward(f, None, tr, jn, edge=edge, start=fill['_b'])
+    pts = [(pb, pi) for (pb, pi, _) in exits_of(f)] + [(f.exit, 0)]
+    ok = all(ev_in.get(p) is not False for p in pts)
+    ctx.ob('R-C05a', 'unregister:refilled-slot-is-sifted', ok, loc=fill['loc'],
+           detail='after %s every path to return sifts %s, except where the refilled slot is the last slot itself (%s == %s)' % (describe(fill), slot, slot, last), fn=f.q)
+    reach = set()
+    st = [fill['_b']]
+    while st:
+        x = st.pop()
+        if x in reach or x is None:
+            continue
+        reach.add(x)
+        st.extend(f.blocks[x].succ)
+    ctx.ob('R-C05a', 'unregister:sift-up-present', any(e['_b'] in reach for e in ups), loc=fill['loc'],
+           detail='the replacement may be earlier than its new parent: pull_up(%s) is applied' % slot, fn=f.q)
+    ctx.ob('R-C05a', 'unregister:sift-down-present', any(e['_b'] in reach for e in downs), loc=fill['loc'],
+           detail='the replacement may be later than its new children: push_down(%s) is applied' % slot, fn=f.q)
     r = prog.fn('iv_timer_register')
     mp = must_pass(r, lambda e: is_call(e, 'pull_up'))
     ctx.ob('R-C05a', 'register:new-slot-sifted-up', bool(mp.get((r.exit, 0))), loc=r.loc, detail='pull_up on every path of registration', fn=r.q)
